@@ -22,4 +22,5 @@ MUTANTS = [
     M('C12', 'long decimal literals through plain int() again (F16 reverted)', 'flipjump/assembler/fj_parser.py', "                t.value = decimal_to_int(n)", "                t.value = int(n)", 'C12.LITERALS'),
     M('C12', 'decimal chunk fallback drops the scaling by the chunk length', 'flipjump/assembler/fj_parser.py', "value = value * 10 ** len(chunk) + int(chunk)", "value = value * 10 ** 512 + int(chunk)", 'C12.LITERALS'),
     M('C12', 'EQ decimal chunk fallback with the sum commuted', 'flipjump/assembler/fj_parser.py', "value = value * 10 ** len(chunk) + int(chunk)", "value = int(chunk) + value * 10 ** len(chunk)", None),
+    M('C12', 'power refuses the exponent 0 (mutation survey)', 'flipjump/assembler/inner_classes/expr.py', "    if exp < 0:", "    if exp <= 0:", 'C12.TABLE'),
 ]
